@@ -15,9 +15,11 @@ def _nproc():
 
 # ---------------------------------------------------------------------------------------
 def _neg_(c):
+    """a cfg file cannot hold a negative number: substitute the operators Neg1..Neg4 of the modules"""
     c = dict(c)
-    if isinstance(c.get("TS"), int) and c["TS"] < 0:
-        c["TS"] = "<- Neg%d" % (-c["TS"])
+    for k in ("TS", "TE", "T0", "T", "VLo", "VHi"):
+        if isinstance(c.get(k), int) and c[k] < 0:
+            c[k] = "<- Neg%d" % (-c[k])
     return c
 
 
@@ -25,14 +27,17 @@ def c01(ctx):
     """ISI-profile equals the definition"""
     if ctx.tier == QUICK:
         cfgs = [dict(TS=0, TE=5, MaxSp=6, MRTSQ=tla_set([0, 6, 16])),
-                dict(TS=3, TE=7, MaxSp=5, MRTSQ=tla_set([0, 2, 30]))]
+                dict(TS=3, TE=7, MaxSp=5, MRTSQ=tla_set([0, 2, 30])),
+                dict(TS=-3, TE=-1, MaxSp=3, MRTSQ=tla_set([0, 3])),
+                dict(TS=-2, TE=2, MaxSp=3, MRTSQ=tla_set([0, 40]))]
     else:
         cfgs = [dict(TS=0, TE=7, MaxSp=8, MRTSQ=tla_set([0, 2, 6, 16, 40])),
                 dict(TS=3, TE=8, MaxSp=6, MRTSQ=tla_set([0, 6, 30])),
                 dict(TS=0, TE=10, MaxSp=3, MRTSQ=tla_set([0, 6, 16]))]
     invs = ["Correct", "InRange", "CursorBounds", "NuPositive", "Terminates", "Export"]
     for c in cfgs:
-        res = run_tlc("IsiScan", c, invs, workers=8, timeout=3000)
+        c = _neg_(c)
+        res = run_tlc("IsiScan", c, invs, workers=16, timeout=3000)
         ctx.add_tlc(res, "ISI scan = definition on all train pairs x MRTS")
         if res.violated:
             continue
@@ -40,7 +45,9 @@ def c01(ctx):
             ctx.sample(r)
         for r in res.exports:
             ctx.count_path("/".join(r["path"]))
+            ctx.count_actions(r["path"], "IsiScan.")
         replay.run(ctx, "isi", res.exports)
+    ctx.require_actions(["start", "adv1", "adv2", "both", "trim", "close"], "IsiScan.")
     import traces as _traces
     _traces.validate_scan(ctx, "isi", ctx.seed + 101, 400 if ctx.tier == QUICK else 6000)
     ctx.assumptions += ["spike times on an integer grid, MRTS on the quarter grid; values compared with tolerance 1e-10",
@@ -53,7 +60,7 @@ def c02(ctx):
     """SPIKE-profile equals the definition (plain, RI, adaptive)"""
     if ctx.tier == QUICK:
         cfgs = [dict(TS=0, TE=5, MaxSp=6, MRTSQ=tla_set([0, 10]), RISet="{FALSE, TRUE}"),
-                dict(TS=-2, TE=2, MaxSp=3, MRTSQ=tla_set([6]), RISet="{FALSE, TRUE}")]
+                dict(TS=-2, TE=2, MaxSp=3, MRTSQ=tla_set([6, 24]), RISet="{FALSE, TRUE}")]
     else:
         cfgs = [dict(TS=0, TE=6, MaxSp=7, MRTSQ=tla_set([0, 6, 10, 20]), RISet="{FALSE, TRUE}"),
                 dict(TS=0, TE=7, MaxSp=8, MRTSQ=tla_set([0]), RISet="{FALSE, TRUE}"),
@@ -72,7 +79,9 @@ def c02(ctx):
             ctx.sample(r)
         for r in res.exports:
             ctx.count_path("/".join(r["path"]))
+            ctx.count_actions(r["path"], "SpikeScan.")
         replay.run(ctx, "spike", res.exports)
+    ctx.require_actions(["start", "adv1", "adv2", "both", "trim", "close"], "SpikeScan.")
     import traces as _traces
     _traces.validate_scan(ctx, "spike", ctx.seed + 102, 300 if ctx.tier == QUICK else 4000)
     ctx.assumptions += ["spike times on an integer grid, MRTS on the quarter grid; values compared with tolerance 1e-10",
@@ -83,10 +92,7 @@ def c02(ctx):
 
 
 def _neg(c):
-    c = dict(c)
-    if isinstance(c.get("TS"), int) and c["TS"] < 0:
-        c["TS"] = "<- Neg%d" % (-c["TS"])
-    return c
+    return _neg_(c)
 
 
 SYNC_INVS = ["Correct", "OrderCorrect", "DirCorrect", "OneToOneInv", "Mutual", "PartnerIsPrevious",
@@ -97,7 +103,7 @@ def _sync_cfgs(tier):
     if tier == QUICK:
         # max_tau from well below an ISI to beyond the recording length (TauQ are quarters)
         return [dict(TS=0, TE=5, MaxSp=6, MRTSQ=tla_set([0, 12]), TauQ=tla_set([0, 2, 14])),
-                dict(TS=-2, TE=5, MaxSp=3, MRTSQ=tla_set([0, 8]), TauQ=tla_set([0, 4, 40]))]
+                dict(TS=-2, TE=5, MaxSp=3, MRTSQ=tla_set([0, 30]), TauQ=tla_set([0, 4, 40]))]
     return [dict(TS=0, TE=6, MaxSp=7, MRTSQ=tla_set([0, 8, 12, 24]), TauQ=tla_set([0, 2, 4, 8, 16])),
             dict(TS=-2, TE=6, MaxSp=3, MRTSQ=tla_set([0, 8, 12]), TauQ=tla_set([0, 2, 3, 6, 20, 100])),
             dict(TS=0, TE=9, MaxSp=3, MRTSQ=tla_set([0, 12]), TauQ=tla_set([0, 4, 6, 30]))]
@@ -115,8 +121,10 @@ def _run_sync(ctx, checkers, what):
             ctx.sample(r)
         for r in res.exports:
             ctx.count_path("/".join(r["path"]))
+            ctx.count_actions(r["path"], "SyncScan.")
         for ck in checkers:
             replay.run(ctx, ck, res.exports)
+    ctx.require_actions(["adv1", "adv2", "both", "frame", "empty"], "SyncScan.")
     return
 
 
@@ -133,7 +141,9 @@ def c03(ctx):
         ctx.sample(res.exports[len(res.exports) // 2])
         for r in res.exports:
             ctx.count_path("single:" + "/".join(r["path"]))
+            ctx.count_actions(r["path"], "SingleScan.")
         replay.run(ctx, "single", res.exports)
+    ctx.require_actions(["move", "prev", "prev-hit", "next", "next-hit", "skip"], "SingleScan.")
     import traces as _traces
     _traces.validate_scan(ctx, "sync", ctx.seed + 103, 300 if ctx.tier == QUICK else 4000)
     ctx.assumptions += ["integer spike times, MRTS and max_tau on the quarter grid so that dt = tau ties are exact in floats",
@@ -185,6 +195,11 @@ def c07(ctx):
                 dict(TS=-2, TE=7, MaxSp=3, RISet="{FALSE, TRUE}", _mrtsq=[0, 10], _tauq=[0, 4])]
     _run_rel(ctx, ["Symmetric", "Identity", "InRange"], "rel_c07", cfgs,
              "definitions are symmetric, zero / one on identical trains, in range")
+    # the range clause on inputs beyond the grid: InRange is an invariant of the scan modules and is
+    # evaluated by TLC on recorded executions (T = 60, <= 20 spikes) of the real code
+    import traces as _traces
+    _traces.validate_scan(ctx, "isi", ctx.seed + 107, 150 if ctx.tier == QUICK else 2000)
+    _traces.validate_scan(ctx, "spike", ctx.seed + 108, 150 if ctx.tier == QUICK else 2000)
     ctx.assumptions += ["relations model-checked on the declarative definitions (Relations.tla); scan = definition is C01-C04",
                         "code compared with itself (swap, self, copy) and against the range; tolerance 1e-10"]
     return ctx.finish(rule="every ordered pair of trains x MRTS x RI x max_tau; one case = one TLC state of Relations; "
@@ -240,11 +255,11 @@ def c15(ctx):
 def c16(ctx):
     """max_tau is an upper bound on the coincidence window"""
     if ctx.tier == QUICK:
-        cfgs = [dict(TS=0, TE=5, MaxSp=6, RISet="{FALSE}", _mrtsq=[0, 12], _tauq=[0, 2, 4, 8]),
-                dict(TS=0, TE=7, MaxSp=3, RISet="{FALSE}", _mrtsq=[0, 24], _tauq=[0, 2, 6])]
+        cfgs = [dict(TS=0, TE=5, MaxSp=6, RISet="{FALSE}", _mrtsq=[0, 12], _tauq=[0, 2, 4, 14]),
+                dict(TS=0, TE=7, MaxSp=3, RISet="{FALSE}", _mrtsq=[0, 24], _tauq=[0, 2, 6, 20, 36])]
     else:
-        cfgs = [dict(TS=0, TE=6, MaxSp=7, RISet="{FALSE}", _mrtsq=[0, 12, 28], _tauq=[0, 2, 4, 8]),
-                dict(TS=0, TE=9, MaxSp=3, RISet="{FALSE}", _mrtsq=[0, 8, 24], _tauq=[0, 2, 3, 6, 10])]
+        cfgs = [dict(TS=0, TE=6, MaxSp=7, RISet="{FALSE}", _mrtsq=[0, 12, 28], _tauq=[0, 2, 4, 8, 18]),
+                dict(TS=0, TE=9, MaxSp=3, RISet="{FALSE}", _mrtsq=[0, 8, 24], _tauq=[0, 2, 3, 6, 10, 26, 50])]
     _run_rel(ctx, ["TauBounded", "CoincGrowsWithTau"], "rel_c16", cfgs,
              "definitions: no coincidence at distance >= max_tau; None = 0; growing max_tau keeps coincidences")
     return ctx.finish(rule="every ordered pair of trains x MRTS x ordered pairs max_tau1 <= max_tau2; "
@@ -297,6 +312,12 @@ def c12(ctx):
             ctx.count_path(mod + ":" + "/".join(r["path"]))
         replay.run(ctx, ck, res.exports, backends=("shim",), chunk=200)
     _c12_add(ctx)
+    # the public functions under both configurations (the fallback branches of the dispatchers included)
+    res = run_tlc("Relations", dict(TS=0, TE=5, MaxSp=3 if q else 4, MRTSQ=tla_set([0, 10]), TauQ=tla_set([0, 4, 14]),
+                                    RISet="{FALSE, TRUE}", ShiftsP="{5}", Scales="{1}"), ["Export"], workers=16, timeout=3000)
+    ctx.add_tlc(res, "cases for the API-level comparison of the two backend configurations")
+    if not res.violated:
+        replay.run(ctx, "twin_api", res.exports, backends=("py",), chunk=200)
     ctx.assumptions += ["the .pyx sources are executed by transliteration (harness/pyxshim.py) with bounds-checked memoryviews and C division; C compilation, int overflow and nogil threading are not covered"]
     return ctx.finish(rule="every TLC terminal state of the scan specs is one argument tuple; both twins are executed on it; "
                            "distinct = distinct branch paths")
@@ -332,6 +353,7 @@ def _run_heap(ctx, kinds, backends=("py", "shim"), only_add=False):
             ctx.sample(ex[len(ex) // 2])
             for r in ex:
                 ctx.count_path("%s:%s:%s" % (kind, r["op"]["f"], "/".join(str(len(o["x"])) for o in r["pre"])))
+                ctx.count_actions([r["op"]["f"]], "FuncObjects.%s." % kind)
             replay.run(ctx, "heap", ex, backends=backends, chunk=500)
 
 
@@ -423,6 +445,7 @@ def _multi(ctx, cfg, fns, invs, checks, what, backends=("py", "shim"), chunk=300
             seen.add(key)
             ctx.sample(r, limit=5)
         ctx.count_path("%s/%s/%s/%s" % (r["call"]["fn"], r["call"]["idx"], r["call"]["iv"], [len(t) for t in r["tr"]]))
+        ctx.count_actions([r["call"]["fn"]], "Multi.Exec.")
     for ck in checks:
         replay.run(ctx, ck, ex, backends=backends, chunk=chunk)
     return ex
@@ -481,6 +504,8 @@ def c14(ctx):
            "every ordered index selection of size >= 2")
     _multi(ctx, dict(N=4, IdxMode='"all"', Sample=2 if q else 4, MRTS4=6, TAU4=4, RIFlag="TRUE"), fns, [],
            ["multi_forms", "multi_abs"], "N = 4: 60 ordered selections")
+    _multi(ctx, dict(N=3, IdxMode='"all"', Sample=4 if q else 8, MRTS4=6, TAU4=4, RIFlag="TRUE", IvCodes="{0, 105}"), fns, [],
+           ["multi_forms", "multi_abs"], "keywords that matter (max_tau = 1, MRTS = 1.5, RI) through every form")
     ctx.assumptions += ["the expected value of f(list, indices=idx) is computed by the spec on the selected sub-list in the "
                         "given order; the forms are compared with each other on the code"]
     return ctx.finish(rule="lists x every ordered subset of positions (size >= 2) x entry point x call form "
@@ -506,6 +531,7 @@ def c13(ctx):
     q = ctx.tier == QUICK
     runs = [(dict(VLo=0, VHi=6, MaxLen=3, N=2, EdgeCodes="{105, 205, 104}", Eps=1, Sample=4 if q else 20), None),
             (dict(VLo=0, VHi=5, MaxLen=2, N=3, EdgeCodes="{104, 204, 15}", Eps=1, Sample=3 if q else 8), None),
+            (dict(VLo="<- Neg4", VHi=1, MaxLen=2, N=2, EdgeCodes="{104, 3, 205}", Eps=1, Sample=5 if q else 12), None),
             # the 1e-6 slack: grid unit 4e-7 s, so 2 units are inside the slack and 3 units outside
             (dict(VLo=0, VHi=8, MaxLen=2, N=2, EdgeCodes="{305, 306}", Eps=3, Sample=6 if q else 30), 4e-7)]
     for c, unit in runs:
